@@ -2262,6 +2262,11 @@ evbuffer_read_setup_vecs_(struct evbuffer *buf, ev_ssize_t howmuch,
 
 	if (howmuch < 0)
 		return -1;
+	if (howmuch == 0) {
+		/* nothing to set up; there may be no chain with space at all */
+		*chainp = buf->last_with_datap;
+		return 0;
+	}
 
 	so_far = 0;
 	/* Let firstchain be the first chain with any space on it */
